@@ -21,6 +21,8 @@ Accepts(s) == /\ s.lat = "ok" /\ s.lon = "ok" /\ s.gmt = "ok" /\ s.elev \in {"ab
               /\ s.input \in {"none", "good"}
 ExpectedFiles(s) == (IF s.o THEN {"out"} ELSE {}) \cup (IF s.p /\ s.input = "none" THEN {"params"} ELSE {})
 FilesOf(e) == {e.files[i] : i \in 1..Len(e.files)}
+\* what each path must hold afterwards: exactly this run's data if the run writes it, else what was there before
+ExpectedContent(s, f) == IF f \in ExpectedFiles(s) /\ Accepts(s) THEN "fresh" ELSE (IF s.pre THEN "old" ELSE "none")
 
 \* the harness' class labels agree with the documented ranges (values are * 10^4)
 InRangeV(v, lo, hi) == v >= lo /\ v <= hi
@@ -36,12 +38,13 @@ Run ==
     /\ Ev.pred = (IF Accepts(Ev.sc) THEN "done" ELSE "rejected")      \* the model's own ending for this scenario
     /\ IF Accepts(Ev.sc)
        THEN /\ Ev.exit = 0
-            /\ FilesOf(Ev) = ExpectedFiles(Ev.sc)
+            /\ Ev.out_state = ExpectedContent(Ev.sc, "out") /\ Ev.params_state = ExpectedContent(Ev.sc, "params")
             /\ Ev.printed = (~Ev.sc.o /\ Ev.ndays > 0)                 \* an empty range lists nothing
             /\ (Ev.sc.input = "none" /\ Ev.sc.dates = "reversed") => Ev.ndays = 0
             /\ Ev.eq_lib                                               \* the output is the library's result
        ELSE /\ Ev.exit # 0                                             \* rejected: non-zero exit ...
-            /\ FilesOf(Ev) = {} /\ ~Ev.printed                        \* ... before anything is written or printed
+            /\ ~Ev.printed                                            \* ... before anything is written or printed
+            /\ Ev.out_state = ExpectedContent(Ev.sc, "out") /\ Ev.params_state = ExpectedContent(Ev.sc, "params")
     /\ Step
 
 RoundTrip == Is("rt") /\ Ev.exit1 = 0 /\ Ev.exit2 = 0 /\ Ev.same /\ Ev.same_listing /\ Step
